@@ -274,6 +274,23 @@ func caseC14(c *Ctx) {
 		f.k = c.Draw(W)
 	}
 	c.Scenario["fault"] = fmt.Sprintf("%s at %d", f.kind, f.k)
+	if c.Chance(1, 3) {
+		// the same call failed before in this process (another fault index): what it left in
+		// package-level state must not change how the next failure is reported
+		f0 := f
+		if strings.HasPrefix(f.kind, "reader") {
+			f0.k = c.Draw(L + 1)
+		} else {
+			f0.k = c.Draw(W)
+		}
+		c.Scenario["earlier_failing_call"] = fmt.Sprintf("%s at %d", f0.kind, f0.k)
+		c.st.Count("massive.with-earlier-failing-call")
+		discardFor = f0.kind
+		env0 := mkEnv()
+		f0.apply(env0)
+		env0.MaxSteps = 40000
+		c.Sim("earlier", op, env0)
+	}
 	discardFor = f.kind
 	env := mkEnv()
 	f.apply(env)
